@@ -374,6 +374,12 @@ def check_C19(chk):
                                            EmSmallFills="= 0", EmPong="<- S13" if thorough else "<- S1", EmWacc="<- S13" if thorough else "<- None"),
                  timeout=1500)
     replay(chk, nd, chk.seed + 1)
+    # cancellation at the FLUSH suspension point of a queueing transport (the websocket one): all bytes of the reply were handed
+    # over, the flush was interrupted - the next read (or write) must finish it (LfsConn held / WsBlock, as in C07 / C20)
+    nd, n = emit(chk, "c19_emit_bp", consts(Transports="<- TWs", Classes="<- ClsKa", Flavors="<- OnlyTokio", Verifies="<- GateOn", MaxFrames="= 1",
+                                            FrameOK="<- FrameReal", MaxWrites="= 1", WLens="<- W8", MaxBlock="= 1", MaxPending="= 1", MaxCancel="= 2" if thorough else "= 1",
+                                            MaxQueued="= 1", EmSmallFills="= 3", EmSizes="<- S134", EmBp="= TRUE"), timeout=900)
+    replay(chk, nd, chk.seed + 9, wsq=True)
     # long behaviours with many cancellations by random walks (keep-alive heavy)
     nd, n = emit_sim(chk, "c19_sim", consts(MaxFrames="= 12", Lens="<- L48", Classes="<- ClsPong", Flavors="<- OnlyTokio", Verifies="<- GateOn",
                                             FrameOK="<- FrameReal", MaxPending="= 4", MaxCancel="= 6", MaxTimeout="= 1", MaxWrites="= 2", WLens="<- W48",
